@@ -296,3 +296,252 @@ Proof.
         assert (Hnth : In a (nth k rest [])) by (rewrite Ek; assumption).
         apply IHnth in Hnth. destruct Hnth as [_ [_ [_ [Hnot _]]]]. apply Hnot. congruence.
 Qed.
+
+(* ---------------------------------------------------------------- Forall2 helpers *)
+Lemma Forall2_nth_l : forall {A B} (R : A -> B -> Prop) l l' i a,
+  Forall2 R l l' -> nth_error l i = Some a -> exists b, nth_error l' i = Some b /\ R a b.
+Proof.
+  intros A B R l l' i a H. revert i a. induction H as [|x y l l' Hxy H IH]; intros i a E.
+  - destruct i; discriminate.
+  - destruct i as [|i]; cbn in *.
+    + inversion E; subst. eauto.
+    + apply IH. assumption.
+Qed.
+
+Lemma Forall2_nth_r : forall {A B} (R : A -> B -> Prop) l l' i b,
+  Forall2 R l l' -> nth_error l' i = Some b -> exists a, nth_error l i = Some a /\ R a b.
+Proof.
+  intros A B R l l' i b H. revert i b. induction H as [|x y l l' Hxy H IH]; intros i b E.
+  - destruct i; discriminate.
+  - destruct i as [|i]; cbn in *.
+    + inversion E; subst. eauto.
+    + apply IH. assumption.
+Qed.
+
+Lemma Forall2_len : forall {A B} (R : A -> B -> Prop) l l', Forall2 R l l' -> length l = length l'.
+Proof. intros A B R l l' H. induction H; cbn; congruence. Qed.
+
+Lemma Forall2_In_l : forall {A B} (R : A -> B -> Prop) l l' a,
+  Forall2 R l l' -> In a l -> exists b, In b l' /\ R a b.
+Proof.
+  intros A B R l l' a H Hin. apply In_nth_error in Hin. destruct Hin as [i Hi].
+  destruct (Forall2_nth_l R l l' i a H Hi) as [b [Hb1 Hb2]]. exists b. split; [|assumption].
+  eapply nth_error_In. eassumption.
+Qed.
+
+Lemma Forall2_In_r : forall {A B} (R : A -> B -> Prop) l l' b,
+  Forall2 R l l' -> In b l' -> exists a, In a l /\ R a b.
+Proof.
+  intros A B R l l' b H Hin. apply In_nth_error in Hin. destruct Hin as [i Hi].
+  destruct (Forall2_nth_r R l l' i b H Hi) as [a [Ha1 Ha2]]. exists a. split; [|assumption].
+  eapply nth_error_In. eassumption.
+Qed.
+
+(* ---------------------------------------------------------------- pages built from boxes *)
+Lemma page_for_in : forall bs p a, page_for bs p -> (In a (p_anchors p) <-> In a (g_anchors (gather bs))).
+Proof.
+  intros bs p a [Hp _]. split; intros H.
+  - eapply Permutation_in; eassumption.
+  - eapply Permutation_in; [apply Permutation_sym|]; eassumption.
+Qed.
+
+Lemma page_for_names : forall bs p n, page_for bs p ->
+  (In n (names_of p) <-> n <> [] /\ exists b, In b bs /\ b_anchor b = n).
+Proof.
+  intros bs p n Hp. rewrite <- gather_names. unfold names_of. destruct Hp as [Hp _]. split; intros H.
+  - eapply Permutation_in; [apply Permutation_map|]; eassumption.
+  - eapply Permutation_in; [apply Permutation_map; apply Permutation_sym|]; eassumption.
+Qed.
+
+Lemma page_for_nodup : forall bs p, page_for bs p -> NoDup (names_of p).
+Proof.
+  intros bs p [Hp _]. unfold names_of.
+  eapply Permutation_NoDup; [apply Permutation_map; apply Permutation_sym; eassumption|].
+  apply gather_nodup.
+Qed.
+
+Lemma definedb_spec : forall bpages n, definedb bpages n = true <-> defined bpages n.
+Proof.
+  intros bpages n. unfold definedb, defined. rewrite andb_true_iff, negb_true_iff, existsb_exists.
+  split.
+  - intros [He [bs [Hbs Hex]]]. apply existsb_exists in Hex. destruct Hex as [b [Hb Hn]].
+    apply name_eqb_eq in Hn. split.
+    + intros E. apply is_empty_true in E. congruence.
+    + exists bs, b. auto.
+  - intros [Hn [bs [b [Hbs [Hb He]]]]]. split.
+    + destruct (is_empty n) eqn:E; [|reflexivity]. apply is_empty_true in E. contradiction.
+    + exists bs. split; [assumption|]. apply existsb_exists. exists b. split; [assumption|].
+      apply name_eqb_eq. assumption.
+Qed.
+
+Lemma filter_links_forall2 : forall (f g : link -> bool) bpages pages,
+  pages_for bpages pages -> (forall l, g l = f l) ->
+  Forall2 (fun bs out => out = filter f (page_links bs)) bpages
+          (map (fun p => filter g (p_links p)) pages).
+Proof.
+  intros f g bpages pages HF Hfg.
+  induction HF as [|bs p bpages' pages' Hbp HF IH]; cbn; constructor.
+  - destruct Hbp as [_ Hl]. rewrite Hl, gather_links. apply filter_ext. assumption.
+  - apply IH.
+Qed.
+
+(* all the facts about resolve, for pages obtained from boxes *)
+Lemma resolve_facts : forall bpages pages, pages_for bpages pages ->
+  let '(links, anchors) := resolve pages in
+  anchors_are_first_defs bpages anchors /\
+  NoDup (map aname (concat anchors)) /\
+  (forall n, defined bpages n <-> In n (map aname (concat anchors))) /\
+  only_dangling_dropped bpages links.
+Proof.
+  intros bpages pages HF. unfold resolve.
+  assert (Hnd : Forall (fun p => NoDup (names_of p)) pages).
+  { apply Forall_forall. intros p Hp. destruct (Forall2_In_r _ _ _ _ HF Hp) as [bs [_ Hbs]].
+    eapply page_for_nodup. eassumption. }
+  pose proof (paged_anchors_spec pages [] Hnd) as Hspec.
+  destruct (paged_anchors [] pages) as [anchors seenF].
+  destruct Hspec as [Hlen [Hs1 [Hs2 [Hnth Hnodup]]]].
+  assert (Hdef : forall n, defined bpages n <-> In n seenF).
+  { intros n. rewrite Hs2. unfold defined. split.
+    - intros [Hn [bs [b [Hbs [Hb He]]]]]. right.
+      destruct (Forall2_In_l _ _ _ _ HF Hbs) as [p [Hp Hbp]]. exists p. split; [assumption|].
+      eapply page_for_names; [eassumption|]. split; [assumption|]. eauto.
+    - intros [[]|[p [Hp Hn]]].
+      destruct (Forall2_In_r _ _ _ _ HF Hp) as [bs [Hbs Hbp]].
+      apply (page_for_names bs p n Hbp) in Hn. destruct Hn as [Hn [b [Hb He]]].
+      split; [assumption|]. exists bs, b. auto. }
+  split; [|split; [assumption|split]].
+  - split.
+    + rewrite Hlen. symmetry. eapply Forall2_len. eassumption.
+    + intros j a. rewrite Hnth. split.
+      * intros [p [Ej [Hin [_ Hbefore]]]].
+        destruct (Forall2_nth_r _ _ _ _ _ HF Ej) as [bs [Ebs Hbp]].
+        apply (page_for_in bs p a Hbp) in Hin. apply gather_anchor_iff in Hin.
+        destruct Hin as [Hne [b [Hfirst Hpos]]]. exists b. split; [|assumption].
+        split; [assumption|]. exists bs. split; [assumption|]. split; [assumption|].
+        intros i bs' Hi Ei. destruct (Forall2_nth_l _ _ _ _ _ HF Ei) as [p' [Ep' Hbp']].
+        specialize (Hbefore i p' Hi Ep'). apply Forall_forall. intros b' Hb' E.
+        apply Hbefore. eapply page_for_names; [eassumption|]. split; [assumption|]. eauto.
+      * intros [b [[Hne [bs [Ebs [Hfirst Hbefore]]]] Hpos]].
+        destruct (Forall2_nth_l _ _ _ _ _ HF Ebs) as [p [Ep Hbp]].
+        exists p. split; [assumption|]. split.
+        -- apply (page_for_in bs p a Hbp). apply gather_anchor_iff. split; [assumption|]. eauto.
+        -- split; [intros []|]. intros i p' Hi Ep' Hin.
+           destruct (Forall2_nth_r _ _ _ _ _ HF Ep') as [bs' [Ebs' Hbp']].
+           apply (page_for_names bs' p' _ Hbp') in Hin. destruct Hin as [_ [b' [Hb' E]]].
+           specialize (Hbefore i bs' Hi Ebs'). rewrite Forall_forall in Hbefore.
+           apply (Hbefore b' Hb'). assumption.
+  - intros n. rewrite Hdef, Hs1. cbn. tauto.
+  - assert (Hkeep : forall l, keep_link seenF l = keep_spec bpages l).
+    { intros l. unfold keep_link, keep_spec. destruct (ltyp l); try reflexivity.
+      destruct (definedb bpages (ltarget l)) eqn:E.
+      - apply in_set_In. apply Hdef. apply definedb_spec. assumption.
+      - apply in_set_false. intros H. apply Hdef in H. apply definedb_spec in H. congruence. }
+    unfold only_dangling_dropped. apply filter_links_forall2; assumption.
+Qed.
+
+(* ---------------------------------------------------------------- first definitions are unique *)
+Lemma first_in_page_fun : forall bs n b b',
+  first_in_page bs n b -> first_in_page bs n b' -> b = b'.
+Proof.
+  intros bs n b b' [pre [post [H1 [H2 H3]]]] [pre' [post' [H1' [H2' H3']]]].
+  subst bs. revert pre' H1' H3'. induction pre as [|x pre IH]; intros pre' H1' H3'.
+  - destruct pre' as [|y pre']; cbn in H1'.
+    + inversion H1'. reflexivity.
+    + inversion H1'; subst. inversion H3' as [|? ? Hy _]; subst. contradiction.
+  - destruct pre' as [|y pre']; cbn in H1'.
+    + inversion H1'; subst. inversion H3 as [|? ? Hx _]; subst. contradiction.
+    + inversion H1'; subst. inversion H3; subst. inversion H3'; subst. eapply IH; eassumption.
+Qed.
+
+Lemma first_in_page_in : forall bs n b, first_in_page bs n b -> In b bs /\ b_anchor b = n.
+Proof. intros bs n b [pre [post [H1 [H2 _]]]]. subst bs. split; [apply in_elt | assumption]. Qed.
+
+Lemma first_def_fun : forall bpages n j b j' b',
+  first_def bpages n j b -> first_def bpages n j' b' -> j = j' /\ b = b'.
+Proof.
+  intros bpages n j b j' b' [_ [bs [E [Hf Hb]]]] [_ [bs' [E' [Hf' Hb']]]].
+  destruct (Nat.lt_trichotomy j j') as [Hlt|[Heq|Hgt]].
+  - exfalso. specialize (Hb' j bs Hlt E). apply first_in_page_in in Hf. destruct Hf as [Hin Hn].
+    rewrite Forall_forall in Hb'. apply (Hb' b Hin). assumption.
+  - subst j'. rewrite E in E'. inversion E'; subst. split; [reflexivity|].
+    eapply first_in_page_fun; eassumption.
+  - exfalso. specialize (Hb j' bs' Hgt E'). apply first_in_page_in in Hf'. destruct Hf' as [Hin Hn].
+    rewrite Forall_forall in Hb. apply (Hb b' Hin). assumption.
+Qed.
+
+Lemma Forall2_fun_eq : forall {A B} (F : A -> B) l ls ls',
+  Forall2 (fun a b => b = F a) l ls -> Forall2 (fun a b => b = F a) l ls' -> ls = ls'.
+Proof.
+  intros A B F l ls ls' H. revert ls'. induction H as [|a b l ls Hb H IH]; intros ls' H';
+    inversion H'; subst; [reflexivity|]. f_equal. apply IH. assumption.
+Qed.
+
+(* ---------------------------------------------------------------- theorems *)
+Theorem resolve_anchors_first_defs : forall bpages pages, pages_for bpages pages ->
+  anchors_are_first_defs bpages (snd (resolve pages)) /\
+  NoDup (map aname (concat (snd (resolve pages)))).
+Proof.
+  intros bpages pages HF. pose proof (resolve_facts bpages pages HF) as H.
+  destruct (resolve pages) as [links anchors]. cbn. tauto.
+Qed.
+
+Theorem resolve_only_dangling_dropped : forall bpages pages, pages_for bpages pages ->
+  only_dangling_dropped bpages (fst (resolve pages)).
+Proof.
+  intros bpages pages HF. pose proof (resolve_facts bpages pages HF) as H.
+  destruct (resolve pages) as [links anchors]. cbn. tauto.
+Qed.
+
+Theorem resolve_links_consistent : forall bpages pages, pages_for bpages pages ->
+  each_internal_link_has_unique_first_anchor bpages (fst (resolve pages)) (snd (resolve pages)).
+Proof.
+  intros bpages pages HF. pose proof (resolve_facts bpages pages HF) as H.
+  destruct (resolve pages) as [links anchors]. cbn [fst snd].
+  destruct H as [[Hlen Hiff] [Hnd [Hdef Hdrop]]].
+  intros i out l Ei Hl Hint.
+  destruct (Forall2_nth_r _ _ _ _ _ Hdrop Ei) as [bs [Ebs Hout]]. subst out.
+  apply filter_In in Hl. destruct Hl as [_ Hkeep]. unfold keep_spec in Hkeep. rewrite Hint in Hkeep.
+  apply definedb_spec in Hkeep. apply Hdef in Hkeep.
+  apply in_map_iff in Hkeep. destruct Hkeep as [a [Ha Hin]].
+  apply in_concat in Hin. destruct Hin as [la [Hla Hain]].
+  apply In_nth with (d := []) in Hla. destruct Hla as [j [Hj Ej]].
+  assert (Hnth : In a (nth j anchors [])) by (rewrite Ej; assumption).
+  pose proof Hnth as Hfd. apply Hiff in Hfd. destruct Hfd as [b [Hfd Hpos]].
+  exists j, a, b. split; [assumption|]. split; [assumption|]. rewrite <- Ha.
+  split; [assumption|]. split; [assumption|].
+  intros j' a' Hin' Hname'. apply Hiff in Hin'. destruct Hin' as [b' [Hfd' Hpos']].
+  rewrite Hname' in Hfd'.
+  destruct (first_def_fun _ _ _ _ _ _ Hfd' Hfd) as [Hj' Hb']. split; [assumption|]. subst b'.
+  destruct a as [an ap], a' as [an' ap']. cbn in *. congruence.
+Qed.
+
+(* the enumeration order of the page maps only permutes the anchors of each page *)
+Theorem resolve_order_irrelevant : forall bpages pages pages',
+  pages_for bpages pages -> pages_for bpages pages' ->
+  fst (resolve pages) = fst (resolve pages') /\
+  Forall2 (fun l l' => forall a, In a l <-> In a l') (snd (resolve pages)) (snd (resolve pages')).
+Proof.
+  intros bpages pages pages' HF HF'.
+  pose proof (resolve_facts bpages pages HF) as H. pose proof (resolve_facts bpages pages' HF') as H'.
+  destruct (resolve pages) as [links anchors]. destruct (resolve pages') as [links' anchors'].
+  cbn [fst snd]. destruct H as [[Hlen Hiff] [_ [_ Hdrop]]]. destruct H' as [[Hlen' Hiff'] [_ [_ Hdrop']]].
+  split.
+  - unfold only_dangling_dropped in *.
+    exact (Forall2_fun_eq (fun bs => filter (keep_spec bpages) (page_links bs)) bpages links links' Hdrop Hdrop').
+  - assert (Hl : length anchors = length anchors') by congruence.
+    clear - Hl Hiff Hiff'.
+    assert (Hn : forall j a, In a (nth j anchors []) <-> In a (nth j anchors' [])).
+    { intros j a. rewrite Hiff, Hiff'. tauto. }
+    clear Hiff Hiff'. revert anchors' Hl Hn. induction anchors as [|x anchors IH]; intros [|y anchors'] Hl Hn;
+      try discriminate; constructor.
+    + intros a. apply (Hn 0%nat a).
+    + apply IH; [cbn in Hl; congruence|]. intros j a. apply (Hn (S j) a).
+Qed.
+
+(* the model's own enumeration (insertion order) is one of them *)
+Lemma pages_for_self : forall bpages,
+  pages_for bpages (map (fun bs => let g := gather bs in page_of g (g_anchors g)) bpages).
+Proof.
+  induction bpages as [|bs bpages IH]; cbn; constructor; [|assumption].
+  split; cbn; [apply Permutation_refl | reflexivity].
+Qed.
